@@ -504,6 +504,25 @@ def _bounded(payload):
                 parts["failure_inside_a_looped_assignment_probes"] = parts.get("failure_inside_a_looped_assignment_probes", 0) + 1
                 consider({"program": prog, "fault": {"func": name, "k": k, "step": s, "exc": "ValueError"}, "mode": mode, "more": 3})
 
+    # a user function called in a loop BOUND fails, possibly before the loop's counter was ever bound (first row of a nest,
+    # single loop): the caller still gets the function's own exception and nothing of the loop stays visible
+    for loops in ([["i", 0, 3], ["j", 0, ["call", "<func>f", ["<state>n"], {}]]],
+                  [["j", 0, ["call", "<func>f", ["<state>n"], {}]]],
+                  [["i", 0, ["call", "<func>f", ["<state>n"], {}]], ["j", 0, 2]]):
+        body_e = ["+", "<state>y", ["*", "j", 2]] if len(loops) == 1 else ["+", "<state>y", ["*", "i", "j"]]
+        prog = {"phases": [
+            {"name": "main", "next": "main", "body": [
+                ["assign", "<state>y", body_e, loops],
+                ["assign", "<state>n", ["+", "<state>n", 1]],
+                ["assign", "<t>", ["+", "<t>", "<dt>"]],
+                ["yield", "<state>y", "y", "<t>", "acc"]]}],
+            "initial": "main", "funcs": {"<func>f": ["lin", 0, 2]}, "state": {"y": 1, "n": 0}, "t0": 0, "dt": 0.25,
+            "run": {"max_steps": 3, "t_end": None}, "cap": 24}
+        for (s, name, k) in crash_points(prog, 3):
+            for mode in ("run", "single"):
+                parts["failure_in_a_loop_bound_probes"] = parts.get("failure_in_a_loop_bound_probes", 0) + 1
+                consider({"program": prog, "fault": {"func": name, "k": k, "step": s, "exc": "ValueError"}, "mode": mode, "more": 2})
+
     # every further exception class, at the first and the last crash point of two programs, both driving modes
     rng_x = random.Random("exception-classes/%s" % seed)
     for pi in range(2):
